@@ -255,6 +255,17 @@ fn detect_fast_bmi2() -> bool {
     family >= 0x19
 }
 
+/// Verification hook: PDEP select, `None` when the host has no BMI2.
+#[cfg(all(feature = "verif-hooks", target_arch = "x86_64", feature = "std"))]
+pub(crate) fn verif_select_in_word_pdep(x: u64, k: u32) -> Option<u32> {
+    if std::arch::is_x86_feature_detected!("bmi2") {
+        // SAFETY: BMI2 availability checked above.
+        Some(unsafe { select_in_word_pdep(x, k) })
+    } else {
+        None
+    }
+}
+
 #[cfg(all(test, target_arch = "x86_64"))]
 mod tests {
     use super::*;
